@@ -332,7 +332,7 @@ static void generate(const char *tier)
 		memset(&s, 0, sizeof s); s.kind = K_GRAMMAR; s.h = (uint8_t)h; s.q = (uint8_t)q; s.n = (uint8_t)n; s.s = (uint8_t)t; s.canon = (uint8_t)is_canon(&s);
 		long id = add_spec(&s);
 		if (id < 0) continue;
-		add_item(id, SM_DIRECT, (q == 7 && dev > 1 && n >= 6 && !thorough) ? 0 : 1);   /* 65535 questions x long names: whole message only in the quick tier (512 KiB calloc per execution) */
+		add_item(id, SM_DIRECT, (q == 7 && (thorough ? dev > 2 : (dev > 1 && n >= 6))) ? 0 : 1);   /* QDCOUNT 65535 costs a 512 KiB calloc per execution: beyond 2 (quick: 1, for long names) deviations only the whole message */
 		if (dev <= (thorough ? 3 : 2)) add_item(id, SM_UDP, dev <= (thorough ? 2 : 1) ? 1 : 0);
 		if (dev <= (thorough ? 2 : 1)) { add_item(id, SM_TCP, 2); add_item(id, SM_TCP, 4); }
 		if (dev <= (thorough ? 1 : 0)) { add_item(id, SM_TCP, 3); add_item(id, SM_TCP, 1); }
